@@ -471,6 +471,29 @@ example : jsonText [0xE6, 0x97, 0xA5, 0xF0, 0x9F, 0x98, 0x80, 0xC3, 0xA9] = [0xE
 example : jsonText [0x61, 0xF5, 0x62] = [0x61, 0xEF, 0xBF, 0xBD, 0x62] := by decide            -- a byte that is not UTF-8
 example : jsonText [0xED, 0xA0, 0x80] = [0xEF, 0xBF, 0xBD, 0xEF, 0xBF, 0xBD, 0xEF, 0xBF, 0xBD] := by decide   -- a surrogate
 
+-- non-vacuity: `m\ 1,k=v s="a, b=\"c\\\"",n=7i,t="" 15` with precision ms: the string with comma,
+-- blank, equals sign, quote and backslash, the integer and the empty string are read back at 15000000
+example : ∃ db, writeBlock [] 1000000 (showSLine exampleSPoint) = some (db, .ok) ∧
+    readField db [109, 32, 49] [⟨[107], [118]⟩] 15000000 [115] = some (.val (.str [97, 44, 32, 98, 61, 34, 99, 92, 34])) ∧
+    readField db [109, 32, 49] [⟨[107], [118]⟩] 15000000 [110] = some (.val (.int 7)) ∧
+    readField db [109, 32, 49] [⟨[107], [118]⟩] 15000000 [116] = some (.val (.str [])) ∧
+    readField db [109, 32, 49] [⟨[107], [118]⟩] 15000000 [107] = some (.val (.str [118])) := by
+  obtain ⟨db, hw, hf, ht⟩ := write_then_query_roundtrip exampleSPoint (by decide) exampleSPoint_shape 1000000 (by decide)
+    15 rfl (by decide) (by decide) (by decide) (by decide) (by decide) (by decide) (by decide)
+  refine ⟨db, hw, ?_, ?_, ?_, ?_⟩
+  · have := hf (.str [115] [97, 44, 32, 98, 61, 34, 99, 92, 34]) (by simp [exampleSPoint])
+    simpa [exampleSPoint, sortTags, insertTag, SField.key, SField.field, storeField, renderVal,
+      jsonText_ascii _ (by decide : ∀ c ∈ ([97, 44, 32, 98, 61, 34, 99, 92, 34] : Bytes), c < 128)] using this
+  · have := hf (.num [110] [55, 105] (.int 7)) (by simp [exampleSPoint])
+    simpa [exampleSPoint, sortTags, insertTag, SField.key, SField.field, storeField, renderVal, f64ToInt64,
+      minInt64, maxInt64] using this
+  · have := hf (.str [116] []) (by simp [exampleSPoint])
+    simpa [exampleSPoint, sortTags, insertTag, SField.key, SField.field, storeField, renderVal,
+      jsonText_ascii _ (by decide : ∀ c ∈ ([] : Bytes), c < 128)] using this
+  · have := ht ⟨[107], [118]⟩ (by simp [exampleSPoint, sortTags, insertTag])
+    simpa [exampleSPoint, sortTags, insertTag,
+      jsonText_ascii _ (by decide : ∀ c ∈ ([118] : Bytes), c < 128)] using this
+
 /-! ### a type conflict is refused, never coerced -/
 
 theorem checkFields_kept_agree (schema : Schema) (fs : List (Bytes × FVal)) :
@@ -530,5 +553,230 @@ theorem type_conflict_refused (schema : Schema) (fs : List (Bytes × FVal)) (k :
 example : (writeBlock [] 1 [109, 32, 97, 61, 49, 32, 49]).bind (fun r => writeBlock r.1 1 [109, 32, 97, 61, 34, 120, 34, 44, 98, 61, 50, 32, 50]) =
     some ([⟨[109], [([97], Ty.float), ([98], Ty.float)],
       [⟨[], 1, [([97], .float 0x3FF0000000000000)]⟩, ⟨[], 2, [([98], .float 0x4000000000000000)]⟩]⟩], .partialErr) := by decide +kernel
+
+/-! ### the same (series, time) twice in one batch: last write wins per field -/
+
+theorem lookup_map_set (fs : List (Bytes × FVal)) (k k' : Bytes) (v : FVal) :
+    (fs.map fun x => if x.1 = k then (k, v) else x).lookup k' =
+      if k' = k then (if fs.any (fun x => decide (x.1 = k)) then some v else none) else fs.lookup k' := by
+  induction fs with
+  | nil => by_cases h : k' = k <;> simp [h, List.lookup]
+  | cons x xs ih =>
+    obtain ⟨kx, vx⟩ := x
+    simp only [List.map_cons, List.any_cons]
+    by_cases hx : kx = k
+    · subst hx
+      by_cases h : k' = kx
+      · subst h; simp [List.lookup]
+      · have : (k' == kx) = false := by simpa using h
+        simp only [if_true, List.lookup, this, h, if_false]
+        rw [ih]; simp [h]
+    · simp only [hx, if_false, decide_false, Bool.false_or]
+      by_cases h : k' = k
+      · subst h
+        have : (k' == kx) = false := by simpa using (fun e => hx e.symm)
+        simp only [List.lookup, this, if_true]
+        rw [ih]; simp
+      · by_cases h2 : k' = kx
+        · subst h2; simp [List.lookup, h]
+        · have : (k' == kx) = false := by simpa using h2
+          simp only [List.lookup, this, h, if_false]
+          rw [ih]; simp [h]
+
+theorem lookup_append_single (fs : List (Bytes × FVal)) (k k' : Bytes) (v : FVal) :
+    (fs ++ [(k, v)]).lookup k' = match fs.lookup k' with
+      | some w => some w
+      | none => if k' = k then some v else none := by
+  induction fs with
+  | nil =>
+    by_cases h : k' = k
+    · subst h; simp [List.lookup]
+    · have : (k' == k) = false := by simpa using h
+      simp [List.lookup, h, this]
+  | cons x xs ih =>
+    obtain ⟨kx, vx⟩ := x
+    by_cases h : k' = kx
+    · subst h; simp [List.lookup]
+    · have : (k' == kx) = false := by simpa using h
+      simp only [List.cons_append, List.lookup, this]
+      exact ih
+
+theorem lookup_none_iff_any (fs : List (Bytes × FVal)) (k : Bytes) :
+    fs.any (fun x => decide (x.1 = k)) = false → fs.lookup k = none := by
+  intro h
+  apply lookup_none_of_not_mem
+  intro hm
+  obtain ⟨y, hy, hk⟩ := List.mem_map.mp hm
+  rw [List.any_eq_false] at h
+  have := h y hy
+  simp only [decide_eq_true_eq] at this
+  exact this hk
+
+theorem lookup_setField (fs : List (Bytes × FVal)) (k k' : Bytes) (v : FVal) :
+    (setField fs k v).lookup k' = if k' = k then some v else fs.lookup k' := by
+  unfold setField
+  by_cases ha : fs.any (fun x => decide (x.1 = k)) = true
+  · simp only [ha, if_true]
+    rw [lookup_map_set]
+    by_cases h : k' = k <;> simp [h, ha]
+  · have ha' : fs.any (fun x => decide (x.1 = k)) = false := by
+      cases hb : fs.any (fun x => decide (x.1 = k)) with
+      | true => exact absurd hb ha
+      | false => rfl
+    simp only [ha', Bool.false_eq_true, if_false]
+    rw [lookup_append_single]
+    by_cases h : k' = k
+    · subst h; simp [lookup_none_iff_any fs k' ha']
+    · simp only [h, if_false]
+      cases fs.lookup k' <;> rfl
+
+/-- **last write wins per field**: in the merged point a field of the later write reads as the
+later write's value, every other field as before. -/
+theorem lookup_mergeFields (old new : List (Bytes × FVal)) (hn : (new.map (·.1)).Nodup) (k : Bytes) :
+    (mergeFields old new).lookup k = match new.lookup k with
+      | some v => some v
+      | none => old.lookup k := by
+  unfold mergeFields
+  induction new generalizing old with
+  | nil => rfl
+  | cons f fs ih =>
+    obtain ⟨kf, vf⟩ := f
+    simp only [List.map_cons, List.nodup_cons] at hn
+    simp only [List.foldl_cons]
+    rw [ih _ hn.2, lookup_setField]
+    by_cases h : k = kf
+    · subst h
+      simp [List.lookup, lookup_none_of_not_mem fs k hn.1]
+    · have : (k == kf) = false := by simpa using h
+      simp only [List.lookup, this, h, if_false]
+
+theorem checkTags_known (schema : Schema) (ts : List Tag) (hn : (ts.map (·.key)).Nodup) (ht : bTime ∉ ts.map (·.key))
+    (hk : ∀ t ∈ ts, schemaGet schema t.key = some Ty.tag) : checkTags schema ts = some (ts, [], false) := by
+  induction ts with
+  | nil => rfl
+  | cons t rest ih =>
+    simp only [List.map_cons, List.nodup_cons, List.mem_cons, not_or] at hn ht
+    have h1 : ¬ t.key = bTime := fun e => ht.1 e.symm
+    have hrec := ih hn.2 ht.2 (fun x hx => hk x (by simp [hx]))
+    have hsch := hk t (by simp)
+    cases rest with
+    | nil =>
+      unfold checkTags
+      simp [h1, hsch, checkTags]
+    | cons n ns =>
+      have h2 : ¬ n.key = t.key := by
+        intro e
+        apply hn.1
+        simp [e]
+      unfold checkTags
+      simp only [h1, if_false, h2, decide_false, Bool.false_eq_true, hsch]
+      rw [hrec]
+      simp
+
+theorem checkFields_known (schema : Schema) (fs : List (Bytes × FVal))
+    (hk : ∀ f ∈ fs, schemaGet schema f.1 = some (tyOf f.2)) : checkFields schema fs = (fs, [], false) := by
+  induction fs with
+  | nil => rfl
+  | cons f rest ih =>
+    unfold checkFields
+    rw [ih (fun x hx => hk x (by simp [hx])), hk f (by simp)]
+    simp
+
+/-- the second row of the batch: the same measurement, tag set and timestamp; its fields are
+fields of the first row with the same types. -/
+structure SameSeries (r1 r2 : StoredRow) : Prop where
+  name : r2.name = r1.name
+  tags : r2.tags = r1.tags
+  sub : ∀ k v, (k, v) ∈ r2.fields → ∃ v1, (k, v1) ∈ r1.fields ∧ tyOf v1 = tyOf v
+
+theorem sortFields_nonempty (fs : List (Bytes × FVal)) (h : fs ≠ []) : (sortFields fs).isEmpty = false := by
+  cases hs : sortFields fs with
+  | nil =>
+    exfalso
+    cases hf : fs with
+    | nil => exact h hf
+    | cons x xs =>
+      have : x ∈ sortFields fs := (mem_sortFields x fs).mpr (by rw [hf]; simp)
+      rw [hs] at this; cases this
+  | cons _ _ => rfl
+
+theorem routeRow_second (r1 r2 : StoredRow) (t : Int) (h1 : RowClean r1 t) (h2 : RowClean r2 t) (hs : SameSeries r1 r2) :
+    routeRow [⟨r1.name, freshSchema r1, []⟩] r2 =
+      some ⟨[⟨r1.name, freshSchema r1, []⟩], some (r1.name, ⟨r1.tags, t, sortFields r2.fields⟩), false⟩ := by
+  have hsn := freshSchema_nodup r1 t h1
+  have htags : ∀ tg ∈ r1.tags, schemaGet (freshSchema r1) tg.key = some Ty.tag := by
+    intro tg htg
+    apply lookup_of_mem_nodup _ _ _ _ hsn
+    unfold freshSchema
+    exact List.mem_append_left _ (List.mem_map.mpr ⟨tg, htg, rfl⟩)
+  have hflds : ∀ f ∈ sortFields r2.fields, schemaGet (freshSchema r1) f.1 = some (tyOf f.2) := by
+    intro f hf
+    obtain ⟨v1, hv1, hty⟩ := hs.sub f.1 f.2 ((mem_sortFields f _).mp hf)
+    rw [← hty]
+    apply lookup_of_mem_nodup _ _ _ _ hsn
+    unfold freshSchema
+    exact List.mem_append_right _ (List.mem_map.mpr ⟨(f.1, v1), (mem_sortFields _ _).mpr hv1, rfl⟩)
+  unfold routeRow
+  simp only [h2.ts]
+  have hr : ¬ (t < minNanoTime ∨ t > maxNanoTime) := by
+    have := h2.lo; have := h2.hi; omega
+  have hname1 : validMstName r1.name = some true := by rw [← hs.name]; exact h2.name
+  simp only [hr, if_false, fixFields_clean r2.fields h2.fieldKeys h2.noTimeField, hs.name, hs.tags, hname1]
+  have hfind : findMst [⟨r1.name, freshSchema r1, []⟩] r1.name = some ⟨r1.name, freshSchema r1, []⟩ := by
+    simp [findMst]
+  simp only [hfind, Option.getD_some, checkTags_known _ r1.tags h1.tagKeys h1.noTimeTag htags,
+    checkFields_known _ _ hflds, sortFields_nonempty r2.fields h2.hasField]
+  simp [putMst, createConflict, addKeys]
+
+/-- **`batch_lww`**: two lines of one batch for the same series and timestamp (the second one
+writing some of the first one's fields again): the batch is acknowledged; every field of the
+second line reads back with the second line's value, every other field of the first line with
+the first line's value. -/
+theorem batch_lww (r1 r2 : StoredRow) (t : Int) (h1 : RowClean r1 t) (h2 : RowClean r2 t) (hs : SameSeries r1 r2) :
+    ∃ db, writeRows [] [r1, r2] = some (db, .ok) ∧
+      (∀ k v2, (k, v2) ∈ r2.fields → readField db r1.name r1.tags t k = some (.val (renderVal v2))) ∧
+      (∀ k v1, (k, v1) ∈ r1.fields → k ∉ r2.fields.map (·.1) →
+        readField db r1.name r1.tags t k = some (.val (renderVal v1))) := by
+  have hsn := freshSchema_nodup r1 t h1
+  refine ⟨[⟨r1.name, freshSchema r1, [⟨r1.tags, t, mergeFields (sortFields r1.fields) (sortFields r2.fields)⟩]⟩], ?_, ?_, ?_⟩
+  · unfold writeRows
+    simp only [List.foldl_cons, List.foldl_nil, routeRow_clean r1 t h1, routeRow_second r1 r2 t h1 h2 hs]
+    simp [sortFields_nonempty r1.fields h1.hasField, sortFields_nonempty r2.fields h2.hasField, storePoint, upsert]
+  · intro k v2 hkv
+    obtain ⟨v1, hv1, hty⟩ := hs.sub k v2 hkv
+    have hsch : schemaGet (freshSchema r1) k = some (tyOf v2) := by
+      rw [← hty]
+      apply lookup_of_mem_nodup _ _ _ _ hsn
+      unfold freshSchema
+      exact List.mem_append_right _ (List.mem_map.mpr ⟨(k, v1), (mem_sortFields _ _).mpr hv1, rfl⟩)
+    have hlk : (sortFields r2.fields).lookup k = some v2 :=
+      lookup_of_mem_nodup _ k v2 ((mem_sortFields _ _).mpr hkv) (nodup_sortFields _ h2.fieldKeys)
+    have hm := lookup_mergeFields (sortFields r1.fields) (sortFields r2.fields) (nodup_sortFields _ h2.fieldKeys) k
+    rw [hlk] at hm
+    have hty' : tyOf v2 ≠ Ty.tag := by cases v2 <;> simp [tyOf]
+    simp [readField, findMst, hsch, cellOf, hty', hm]
+  · intro k v1 hkv hnot
+    have hsch : schemaGet (freshSchema r1) k = some (tyOf v1) := by
+      apply lookup_of_mem_nodup _ _ _ _ hsn
+      unfold freshSchema
+      exact List.mem_append_right _ (List.mem_map.mpr ⟨(k, v1), (mem_sortFields _ _).mpr hkv, rfl⟩)
+    have hlk1 : (sortFields r1.fields).lookup k = some v1 :=
+      lookup_of_mem_nodup _ k v1 ((mem_sortFields _ _).mpr hkv) (nodup_sortFields _ h1.fieldKeys)
+    have hlk2 : (sortFields r2.fields).lookup k = none := by
+      apply lookup_none_of_not_mem
+      intro hm
+      apply hnot
+      obtain ⟨y, hy, hk⟩ := List.mem_map.mp hm
+      exact List.mem_map.mpr ⟨y, (mem_sortFields y _).mp hy, hk⟩
+    have hm := lookup_mergeFields (sortFields r1.fields) (sortFields r2.fields) (nodup_sortFields _ h2.fieldKeys) k
+    rw [hlk2, hlk1] at hm
+    have hty' : tyOf v1 ≠ Ty.tag := by cases v1 <;> simp [tyOf]
+    simp [readField, findMst, hsch, cellOf, hty', hm]
+
+-- non-vacuity: `m,h=a x=1i,y=2i 5` then `m,h=a x=7i 5` in one batch: x reads 7, y still 2
+example : (writeBlock [] 1 [109, 44, 104, 61, 97, 32, 120, 61, 49, 105, 44, 121, 61, 50, 105, 32, 53, 10,
+      109, 44, 104, 61, 97, 32, 120, 61, 55, 105, 32, 53]).map (fun r => (r.2,
+        readField r.1 [109] [⟨[104], [97]⟩] 5 [120], readField r.1 [109] [⟨[104], [97]⟩] 5 [121])) =
+    some (.ok, some (.val (.int 7)), some (.val (.int 2))) := by decide +kernel
 
 end OG.C06
